@@ -13,6 +13,10 @@ import AcnProofs.Lemmas.TariffLookup
 import AcnProofs.Lemmas.TariffSplit
 import AcnProofs.Lemmas.TariffDecimal
 import AcnProofs.Lemmas.TariffVec
+import AcnModel.TariffPeriod
+import AcnModel.TariffMemo
+import AcnProofs.Lemmas.TariffPeriod
+import AcnProofs.Lemmas.TariffMemo
 import Mathlib.Tactic
 
 namespace Acn.C17
@@ -343,5 +347,231 @@ def exRaw : List (Raw Rat) :=
 example : energyCost (loadedOf exRaw) 1577836800 360 [2, 2, 2, 2] = .ok 96 := by decide +kernel
 example : demandCharge (loadedOf exRaw) 1577836800 [2, 5, 3] = .ok 35 := by decide +kernel
 example : getTariffs (loadedOf exRaw) 1577836800 4 360 = .ok [1, 1, 3, 3] := by decide +kernel
+
+/-! ### ANY period (0.5, 2.5, 0.01 … minutes), microsecond starts
+
+`timedelta(minutes=period)` is `tdUs period` microseconds; `startUs` is the start in µs since the epoch.
+Element `t` is looked up at the whole second that CONTAINS `start + t·timedelta`: the microseconds of
+that instant are dropped (floor), not rounded. -/
+
+/-- a period that is a whole number of microseconds (every period with ≤ 4 decimals of a second, every
+    dyadic one down to 2⁻⁸ min …) becomes exactly `60·10⁶·p` µs -/
+theorem period_timedelta_exact (p : ℚ) (hp : (p * 60000000).den = 1) : (tdUs p : ℚ) = p * 60000000 :=
+  roundHalfEvenQ_of_den_one _ hp
+
+/-- any other period is rounded (half-even) to the nearest microsecond -/
+theorem period_timedelta_close (p : ℚ) : |(tdUs p : ℚ) - p * 60000000| ≤ 1 / 2 :=
+  roundHalfEvenQ_err _
+
+example : tdUs (1 / 2) = 30000000 ∧ tdUs (5 / 2) = 150000000 ∧ tdUs (1 / 100) = 600000 ∧
+    tdUs (1 / 3) = 20000000 ∧ tdUs (1 / 120000000) = 0 ∧ tdUs (1 / 40000000) = 2 := by decide +kernel
+
+/-- `get_tariffs(start, n, period)` for ANY rational period and any microsecond start: it returns `v`
+    iff `v` has length `n` and element `t` is `get_tariff` at the whole second
+    `⌊(start + t·timedelta(minutes=period)) / 1 s⌋`; it raises iff some element does. -/
+theorem get_tariffs_eq_lookup_any_period {K : Type} [LT K] [DecidableLT K] (l : List (Schedule K))
+    (startUs : Int) (n : Nat) (p : ℚ) (v : List K) :
+    getTariffsP l startUs n p = .ok v ↔
+      v.length = n ∧ ∀ t (ht : t < v.length),
+        getTariffAt l ⌊(((startUs + (t : Int) * tdUs p : Int) : ℚ)) / 1000000⌋ = .ok v[t] := by
+  unfold getTariffsP
+  rw [getTariffsUs_eq_map]
+  simp only [ediv_million_eq_floor]
+
+/-- … and when the period is a whole number of microseconds the instant that is looked up is exactly
+    `⌊start + t·period⌋` in seconds: `start` (in seconds, with its microseconds) plus `t` times `60·p`
+    seconds, microseconds DROPPED. -/
+theorem get_tariffs_instant_exact (startUs : Int) (t : Nat) (p : ℚ) (hp : (p * 60000000).den = 1) :
+    (startUs + (t : Int) * tdUs p) / 1000000 = ⌊(startUs : ℚ) / 1000000 + (t : ℚ) * (p * 60)⌋ := by
+  rw [ediv_million_eq_floor]
+  congr 1
+  push_cast
+  rw [period_timedelta_exact p hp]
+  ring
+
+/-- dropped, not rounded: 11:59:59.6 is priced as 11:59:59 -/
+example : (1561982399600000 : Int) / 1000000 = 1561982399 := by decide
+
+/-- totality for any period: on a tariff whose complete table has exactly one valid schedule everywhere,
+    `get_tariffs` succeeds for every start, every length and every period — positive, zero or negative -/
+theorem get_tariffs_total_any_period {K : Type} [LT K] [DecidableLT K] (l : List (Schedule K))
+    (htab : ∀ md ∈ days366, ∀ wd < 7, countValid l md wd = 1)
+    (hbp : ∀ sch ∈ l, breakpointsOk sch = true) (startUs : Int) (n : Nat) (p : ℚ) :
+    ∃ v, getTariffsP l startUs n p = .ok v := by
+  unfold getTariffsP getTariffsUs
+  exact mapM_total _ _ (fun t _ => (tariff_total_of_table l htab hbp _).1)
+
+/-- whole-minute periods and whole-second starts are the special case the earlier theorems are about -/
+theorem any_period_extends_whole_minutes {K : Type} [LT K] [DecidableLT K] (l : List (Schedule K))
+    (start : Int) (n period : Nat) :
+    getTariffsP l (start * 1000000) n (period : ℚ) = getTariffs l start n period := by
+  have h : tdUs (period : ℚ) = (period : Int) * 60 * 1000000 := by
+    have hq : ((period : ℚ) * 60000000).den = 1 := by
+      have : (period : ℚ) * 60000000 = ((period * 60000000 : ℕ) : ℚ) := by push_cast; ring
+      rw [this]; exact Rat.den_natCast _
+    have := period_timedelta_exact (period : ℚ) hq
+    have h2 : ((tdUs (period : ℚ) : Int) : ℚ) = (((period : Int) * 60 * 1000000 : Int) : ℚ) := by
+      rw [this]; push_cast; ring
+    exact_mod_cast h2
+  unfold getTariffsP
+  rw [h, getTariffs_eq_getTariffsUs]
+
+/-- `Interface.get_prices(n, start)` for any period: element `t` is the tariff at the whole second
+    containing `sim.start + (q + t)·timedelta(minutes=period)`, `q` the explicit `start` if given (0
+    included) and the current iteration otherwise. -/
+theorem interface_prices_aligned_any_period {K : Type} [LT K] [DecidableLT K] (l : List (Schedule K))
+    (simStartUs : Int) (p : ℚ) (iteration : Nat) (start : Option Int) (n : Nat) (v : List K)
+    (h : interfacePricesP l simStartUs p iteration start n = .ok v) :
+    v.length = n ∧ ∀ t (ht : t < v.length),
+      getTariffAt l ⌊(((simStartUs + (queryStep iteration start + (t : Int)) * tdUs p : Int) : ℚ)) / 1000000⌋
+        = .ok v[t] := by
+  unfold interfacePricesP at h
+  obtain ⟨hlen, hv⟩ := (getTariffsUs_eq_map l _ n _ v).mp h
+  refine ⟨hlen, fun t ht => ?_⟩
+  rw [← hv t ht, ← ediv_million_eq_floor]
+  congr 2; ring
+
+/-- `Interface.get_demand_charge(start)` for any period -/
+theorem interface_demand_aligned_any_period {K : Type} [LT K] [DecidableLT K] (l : List (Schedule K))
+    (simStartUs : Int) (p : ℚ) (iteration : Nat) (start : Option Int) :
+    interfaceDemandP l simStartUs p iteration start =
+      getDemandAt l ⌊(((simStartUs + queryStep iteration start * tdUs p : Int) : ℚ)) / 1000000⌋ := by
+  unfold interfaceDemandP
+  rw [← ediv_million_eq_floor]
+  congr 2; ring
+
+section costsP
+variable {K : Type} [Field K] [LinearOrder K]
+
+/-- `energy_cost = Σ_t price(⌊sim.start + t·timedelta(period)⌋) · power_t · (period / 60)` for any period;
+    `pK` is the number `sim.period` in the carrier of the rates -/
+theorem energy_cost_def_any_period (l : List (Schedule K)) (simStartUs : Int) (p : ℚ) (pK : K)
+    (agg : List K) (c : K) (h : energyCostP l simStartUs p pK agg = .ok c) :
+    ∃ prices : List K, prices.length = agg.length ∧
+      (∀ t (ht : t < prices.length),
+        getTariffAt l ⌊(((simStartUs + (t : Int) * tdUs p : Int) : ℚ)) / 1000000⌋ = .ok prices[t]) ∧
+      c = (List.zipWith (· * ·) prices agg).sum * (pK / 60) := by
+  unfold energyCostP at h
+  cases hp : getTariffsUs l simStartUs agg.length (tdUs p) with
+  | error e => rw [hp] at h; cases h
+  | ok prices =>
+    rw [hp] at h
+    obtain ⟨hlen, hv⟩ := (getTariffsUs_eq_map l _ _ _ prices).mp hp
+    refine ⟨prices, hlen, fun t ht => ?_, ?_⟩
+    · rw [← ediv_million_eq_floor]; exact hv t ht
+    · have : c = dotK prices agg * (pK / ((60 : Nat) : K)) := by cases h; rfl
+      rw [this, dotK, sumK, ← List.sum_eq_foldl]
+      norm_num
+
+/-- the explicit-tariff contract: `energy_cost(sim, tariff)` and `demand_charge(sim, tariff)` use the tariff
+    they are GIVEN, whatever `sim.signals` holds (another tariff, no tariff, not even a dict); only without an
+    argument `signals["tariff"]` is used; with neither, they raise before any price is looked up. -/
+theorem energy_cost_uses_given_tariff (l l' : List (Schedule K))
+    (signals : Option (Option (List (Schedule K)))) (simStartUs : Int) (p : ℚ) (pK : K) (agg : List K) :
+    energyCostWith (some l) signals simStartUs p pK agg = (energyCostP l simStartUs p pK agg).mapError .tariff ∧
+    demandChargeWith (some l) signals simStartUs agg = (demandChargeP l simStartUs agg).mapError .tariff ∧
+    energyCostWith none (some (some l')) simStartUs p pK agg = (energyCostP l' simStartUs p pK agg).mapError .tariff ∧
+    demandChargeWith none (some (some l')) simStartUs agg = (demandChargeP l' simStartUs agg).mapError .tariff ∧
+    energyCostWith none (some none) simStartUs p pK agg = .error (.pick .valueError) ∧
+    demandChargeWith none (some none) simStartUs agg = .error (.pick .valueError) ∧
+    energyCostWith none none simStartUs p pK agg = .error (.pick .typeError) ∧
+    demandChargeWith none none simStartUs agg = .error (.pick .typeError) := by
+  refine ⟨?_, ?_, ?_, ?_, rfl, rfl, rfl, rfl⟩ <;>
+    simp only [energyCostWith, demandChargeWith, withPicked, Analysis.pickTariff] <;>
+    split <;> simp_all [Except.mapError]
+
+/-- … so a given tariff's cost is the defining sum over THAT tariff's prices -/
+theorem energy_cost_given_tariff_def (l : List (Schedule K))
+    (signals : Option (Option (List (Schedule K)))) (simStartUs : Int) (p : ℚ) (pK : K) (agg : List K) (c : K)
+    (h : energyCostWith (some l) signals simStartUs p pK agg = .ok c) :
+    ∃ prices : List K, prices.length = agg.length ∧
+      (∀ t (ht : t < prices.length),
+        getTariffAt l ⌊(((simStartUs + (t : Int) * tdUs p : Int) : ℚ)) / 1000000⌋ = .ok prices[t]) ∧
+      c = (List.zipWith (· * ·) prices agg).sum * (pK / 60) := by
+  rw [(energy_cost_uses_given_tariff l l signals simStartUs p pK agg).1] at h
+  cases hc : energyCostP l simStartUs p pK agg with
+  | error e => rw [hc] at h; cases h
+  | ok c' =>
+    rw [hc] at h
+    have : c' = c := by simpa [Except.mapError] using h
+    exact energy_cost_def_any_period l simStartUs p pK agg c (this ▸ hc)
+
+end costsP
+
+/-- half-minute periods from a start with microseconds: 4 elements from 2020-01-01 11:59:00.6 -/
+example : getTariffsP (loadedOf exRaw) 1577879940600000 4 (1 / 2) = .ok [1, 1, 3, 3] := by decide +kernel
+example : energyCostP (loadedOf exRaw) 1577879940600000 (1 / 2) (1 / 2 : Rat) [2, 2, 2, 2] = .ok (2 / 15) := by
+  decide +kernel
+example : energyCostWith (some (loadedOf exRaw)) (some (some [])) 1577879940600000 (1 / 2) (1 / 2 : Rat) [2, 2, 2, 2]
+    = .ok (2 / 15) := by decide +kernel
+
+/-! ### a memo of the selected schedule is invisible iff its key determines (month, day, weekday) -/
+
+/-- For a key that determines (month, day) and the weekday, a tariff object that remembers the selected
+    schedule per key answers EVERY history of `get_tariff` / `get_demand_charge` queries — any length, any
+    years, starting from any cache filled by earlier histories — exactly as the object without the cache,
+    and leaves a cache with the same guarantee. -/
+theorem memo_transparent {K κ : Type} [DecidableEq κ] [LT K] [DecidableLT K] (key : Fields → κ)
+    (hk : KeySound key) (l : List (Schedule K)) (qs : List Query) (c : Cache K κ) (hc : CacheOk key l c) :
+    (runMemo key l c qs).1 = runPlain l qs ∧ CacheOk key l (runMemo key l c qs).2 :=
+  runMemo_spec key hk l qs c hc
+
+/-- … and ONLY for such keys: if two datetimes share a key but differ in (month, day) or weekday there
+    is a tariff and a two-query history on which the cached object answers differently. -/
+theorem memo_transparent_iff {κ : Type} [DecidableEq κ] (key : Fields → κ) :
+    (∀ (l : List (Schedule ℚ)) (qs : List Query), (runMemo key l ([] : Cache ℚ κ) qs).1 = runPlain l qs) ↔
+      KeySound key := by
+  constructor
+  · intro h f g hfg
+    by_contra hne
+    have hne' : ¬ (g.md = f.md ∧ g.wd = f.wd) := fun hh => hne ⟨hh.1.symm, hh.2.symm⟩
+    exact runMemo_visible key f g hfg hne' (h _ _)
+  · intro hk l qs
+    exact (runMemo_spec key hk l qs [] (cacheOk_nil key l)).1
+
+/-- `get_tariffs` through such a cache (a per-call fast path, or the object's cache): element by element
+    the answers of `get_tariffs` without it -/
+theorem get_tariffs_memo_transparent {K κ : Type} [DecidableEq κ] [LT K] [DecidableLT K] (key : Fields → κ)
+    (hk : KeySound key) (l : List (Schedule K)) (c : Cache K κ) (hc : CacheOk key l c)
+    (startUs : Int) (n : Nat) (stepUs : Int) :
+    (runMemo key l c (vecQueries startUs n stepUs)).1 =
+      (List.range n).map (fun (t : Nat) => getTariffAt l ((startUs + (t : Int) * stepUs) / 1000000)) := by
+  rw [(runMemo_spec key hk l _ c hc).1]
+  simp only [runPlain, vecQueries, List.map_map]
+  rfl
+
+/-- (month, day, weekday) and (year, month, day, weekday) are sound keys -/
+theorem memo_key_full_sound : KeySound keyFull ∧ KeySound keyDate := by
+  constructor <;> intro f g h <;> simp only [keyFull, keyDate, Prod.mk.injEq] at h <;> tauto
+
+/-- summer weekdays 1 → 3 at noon, summer weekends 2, winter 5 -/
+def exWeek : List (Raw Rat) :=
+  [{ id := "SWD", start := (6, 1), stop := (9, 30), mask := "WEEKDAYS", times := [0, 12], rates := [1, 3], demand := 7 },
+   { id := "SWE", start := (6, 1), stop := (9, 30), mask := "WEEKENDS", times := [0], rates := [2], demand := 7 },
+   { id := "W", start := (10, 1), stop := (5, 31), mask := "ALL", times := [0], rates := [5], demand := 4 }]
+
+/-- a cache keyed by (month, day) only is visible across years: Friday 2019-07-05 12:00, then Sunday
+    2020-07-05 12:00 on the same object — the cache answers the weekday price 3, `get_tariff` says 2 -/
+theorem memo_key_month_day_visible :
+    ¬ KeySound keyMonthDay ∧
+    (runMemo keyMonthDay (loadedOf exWeek) [] [.rate (fieldsOf 1562328000), .rate (fieldsOf 1593950400)]).1
+      = [.ok 3, .ok 3] ∧
+    runPlain (loadedOf exWeek) [.rate (fieldsOf 1562328000), .rate (fieldsOf 1593950400)] = [.ok 3, .ok 2] := by
+  refine ⟨fun h => ?_, by decide +kernel, by decide +kernel⟩
+  have := (h (fieldsOf 1562328000) (fieldsOf 1593950400) (by decide +kernel)).2
+  revert this; decide +kernel
+
+/-- a cache / fast path keyed by the day of the month only ("the vector ends on the same `.day` it starts
+    on") is visible across months: 2019-05-31 12:00 (winter, 5), then 2019-07-31 12:00 (summer weekday, 3) -/
+theorem memo_key_day_of_month_visible :
+    ¬ KeySound keyDayOfMonth ∧
+    (runMemo keyDayOfMonth (loadedOf exWeek) [] [.rate (fieldsOf 1559304000), .rate (fieldsOf 1564574400)]).1
+      = [.ok 5, .ok 5] ∧
+    runPlain (loadedOf exWeek) [.rate (fieldsOf 1559304000), .rate (fieldsOf 1564574400)] = [.ok 5, .ok 3] := by
+  refine ⟨fun h => ?_, by decide +kernel, by decide +kernel⟩
+  have := (h (fieldsOf 1559304000) (fieldsOf 1564574400) (by decide +kernel)).1
+  revert this; decide +kernel
+
+example : CacheOk keyFull (loadedOf exWeek) ([] : Cache Rat _) := cacheOk_nil _ _
 
 end Acn.C17
